@@ -151,6 +151,12 @@ func Harness_C15_server() {
 			post(`{"query":` + string(q) + `,"extensions":` + c15Ext(c15Sum(other)) + `,"operationName":5}`)
 			wantStatus = 400
 		}
+		if zzsym.Param("cancelled", 0) == 1 {
+			// the caller has gone away before the request is handled: the verdict on the hash is the same
+			cctx, cancel := context.WithCancel(context.Background())
+			cancel()
+			r = r.WithContext(cctx)
+		}
 		w := newHWriter()
 		before := len(es.execs)
 		srv.ServeHTTP(w, r)
